@@ -12983,3 +12983,13 @@ impl core::fmt::Display for ElementName {
         f.write_str(ElementName::STRING_TABLE[*self as usize])
     }
 }
+
+#[cfg(feature = "verif")]
+impl ElementName {
+    /// verification hook: the complete table of item texts; the index of a text is the value of its item
+    #[doc(hidden)]
+    #[must_use]
+    pub fn verif_string_table() -> &'static [&'static str] {
+        &Self::STRING_TABLE
+    }
+}
